@@ -29,7 +29,7 @@ def main():
     C = Check("C09", "the JSON session answers every request and never dies")
     P = M.program()
     seq_len = 1 if C.tier == "quick" else 2
-    C.bounds = {"start_states": "idle + every error state the step driver reaches (expression kinds, built-in calls with "
+    C.bounds = {"start_states": "idle + one representative per machine shape (error origin, entry state, values lost, stale entries, block delta) of every error state the step driver reaches (expression kinds, built-in calls with "
                 "0..1 arguments, other calls) at top level", "command_sequences": f"<= {seq_len} of {COMMANDS} then :resume",
                 "eval_steps_per_command": "<= 12 loop iterations"}
     C.assumptions += M.NATIVE_NOTES + [
@@ -118,9 +118,26 @@ def main():
     n_states = 0
     not_enc = {}
     for label, job in jobs:
-        for seq in seqs:
+        # phase 1: the error states of this recipe, grouped by machine shape; commands are played once per shape
+        try:
+            S._n[0] = 0
+            pre = explore(lambda ctx: S.run_job(P, ctx, job, max_args=1, toplevel=True, resume_check=False), max_paths=6000)
+        except (Unsupported, UnwindExceeded) as ex:
+            not_enc[label] = str(ex)[:140]
+            continue
+        reps = {}
+        for r in pre:
+            if r.kind != "ok" or r.value["outcome"] != "error":
+                continue
+            st = r.value["steps"][-1]
+            sig = (st.get("err_origin"), st["state"], len(st["before"]) - len(st["after_restore"]), st.get("stale_entries"),
+                   st.get("blocks_delta"), len(r.value["S"].entries()))
+            reps.setdefault(sig, r.decisions)
+        C.paths += len(pre)
+        for sig, dec in reps.items():
+          for seq in seqs:
             try:
-                res = explore(lambda ctx: run_after_error(ctx, job, seq), max_paths=3000)
+                res = explore(lambda ctx: run_after_error(ctx, job, seq), max_paths=3000, initial=[dec])
             except (Unsupported, UnwindExceeded) as ex:
                 not_enc[f"{label} {seq}"] = str(ex)[:140]
                 continue
